@@ -82,14 +82,17 @@ type Conn struct {
 	clientClosed bool
 	Deadlines    []DeadlineRec
 	rdl, wdl     time.Time
-	Blocks       []BlockEvent
-	Written      int
-	ReadCalls    int
-	WriteCalls   int
-	tlsSide      *tlsSide
-	ServerTLS    *tls.ConnectionState
-	TLSErr       error
-	FirstClear   []byte // first bytes the client wrote in clear (for implicit TLS checks)
+	// rExp/wExp: a block event was resolved against the armed deadline, i.e. virtual time has reached it;
+	// as on a real socket every later read/write fails with a timeout until a new deadline is set
+	rExp, wExp bool
+	Blocks     []BlockEvent
+	Written    int
+	ReadCalls  int
+	WriteCalls int
+	tlsSide    *tlsSide
+	ServerTLS  *tls.ConnectionState
+	TLSErr     error
+	FirstClear []byte // first bytes the client wrote in clear (for implicit TLS checks)
 	// ClientBytes is everything the client wrote, in order; TLSStartAt is the offset at which the server side
 	// switched to TLS (-1 = never): bytes before it are cleartext, chunks after it must be TLS records.
 	ClientBytes []byte
@@ -136,7 +139,7 @@ func (c *Conn) Read(p []byte) (int, error) {
 	if c.clientClosed {
 		return 0, net.ErrClosed
 	}
-	if !c.rdl.IsZero() && c.now().After(c.rdl) {
+	if c.rExp || (!c.rdl.IsZero() && c.now().After(c.rdl)) {
 		return 0, timeoutErr{"read"}
 	}
 	if len(c.rq) > 0 {
@@ -150,6 +153,10 @@ func (c *Conn) Read(p []byte) (int, error) {
 	// the peer is silent: block event
 	c.Blocks = append(c.Blocks, BlockEvent{Op: "read", At: time.Now(), Deadline: c.rdl, After: c.lastPos()})
 	if !c.rdl.IsZero() {
+		c.rExp = true
+		if !c.wdl.IsZero() && !c.wdl.After(c.rdl) {
+			c.wExp = true
+		}
 		return 0, timeoutErr{"read"}
 	}
 	return 0, io.EOF
@@ -166,7 +173,7 @@ func (c *Conn) Write(p []byte) (int, error) {
 	if c.clientClosed {
 		return 0, net.ErrClosed
 	}
-	if !c.wdl.IsZero() && c.now().After(c.wdl) {
+	if c.wExp || (!c.wdl.IsZero() && c.now().After(c.wdl)) {
 		return 0, timeoutErr{"write"}
 	}
 	if len(c.rq) > 0 && c.tlsSide == nil && !c.S.AwaitingTLS() {
@@ -187,6 +194,10 @@ func (c *Conn) Write(p []byte) (int, error) {
 		c.Written += k
 		c.S.Stalled = true
 		if !c.wdl.IsZero() {
+			c.wExp = true
+			if !c.rdl.IsZero() && !c.rdl.After(c.wdl) {
+				c.rExp = true
+			}
 			return k, timeoutErr{"write"}
 		}
 		return k, io.ErrClosedPipe
@@ -289,10 +300,10 @@ func (c *Conn) setdl(kind string, t time.Time) {
 	defer c.mu.Unlock()
 	c.Deadlines = append(c.Deadlines, DeadlineRec{At: time.Now(), Value: t, Kind: kind})
 	if kind != "w" {
-		c.rdl = t
+		c.rdl, c.rExp = t, false
 	}
 	if kind != "r" {
-		c.wdl = t
+		c.wdl, c.wExp = t, false
 	}
 }
 func (c *Conn) SetDeadline(t time.Time) error      { c.setdl("rw", t); return nil }
